@@ -661,6 +661,13 @@ theorem logpdfX_normal (fn : Fn K) (sp : Sp K) (a : Base K) (h : a.fam = .normal
     (hnn : sp.nanToNum (a.logpdf fn x) = a.logpdf fn x) : a.logpdfX fn sp x = a.logpdf fn x := by
   simp only [Base.logpdfX, logpdfRaw_normal fn sp a h x, hnn]
 
+/-- `mean` with `NaturalNormal`'s `np.nan_to_num` is the mean of the theorems wherever `nan_to_num` is the identity
+(every finite value), for plain and transformed messages -/
+theorem meanX_eq_mean (fn : Fn K) (sp : Sp K) (m : M K) (h : sp.nanToNum0 m.base.mean = m.base.mean) :
+    m.meanX fn sp = m.mean fn := by
+  simp only [M.meanX, M.mean, Base.meanX]
+  split <;> simp [h]
+
 /-! ## the numerical inversions: what they solve -/
 
 /-- `invpsilog`: a Newton step leaves `x` where it is exactly when `x` solves `ψ(x) − log x = c`; a solution is kept by
